@@ -49,4 +49,5 @@ registry! {
     c23::C23,
     c24::C24,
     c25::C25,
+    c26::C26,
 }
